@@ -192,7 +192,7 @@ func vC05RunBytes(k *vKit, b []byte) (obs vSx, fl *vC05Fail, tree *vC05Node) {
 func TestVerifC05(t *testing.T) {
 	k := vNewKit(t, "C05")
 	defer k.close()
-	runOne := func(c vSx) {
+	runCase := func(c vSx) {
 		if !c.isList() || len(c.l) != 2 || !c.l[0].isInt() {
 			k.record(c, vL(vZ(-1)), false)
 			return
@@ -236,6 +236,17 @@ func TestVerifC05(t *testing.T) {
 			} else {
 				k.count("bytes-result", "panic")
 			}
+		case 2:
+			if !c.l[1].isList() {
+				k.record(c, vL(vZ(-1)), false)
+				return
+			}
+			obs, fl, nontrivial = vC05RunHist(c.l[1])
+			k.count("kind", "history")
+			k.count("history-ops", vSizeBucket(len(c.l[1].l)))
+			if nontrivial {
+				k.count("history-shape", "set-after-marshal-then-marshal")
+			}
 		default:
 			k.record(c, vL(vZ(-1)), false)
 			return
@@ -245,6 +256,20 @@ func TestVerifC05(t *testing.T) {
 			k.fail(idx, c.size(), fl.oracle, "", fl.detail)
 		}
 	}
+	// nothing the library does may crash the driver: a panic anywhere while running a case is
+	// an oracle failure on that case
+	runOne := func(c vSx) {
+		before := k.n
+		msg := vPanicText(func() { runCase(c) })
+		if msg == "" {
+			return
+		}
+		idx := before
+		if k.n == before {
+			idx = k.record(c, vPanicObs(), false)
+		}
+		k.fail(idx, c.size(), "no-panic", "", "panic while running the case: "+msg)
+	}
 	if k.replay != nil {
 		runOne(*k.replay)
 		return
@@ -253,15 +278,22 @@ func TestVerifC05(t *testing.T) {
 		runOne(c)
 	}
 	r := k.rnd
+	// boundary sizes (strings and property names of 0, 1, 255, 256, 65534, 65535 bytes) in every
+	// tier; the byte cases come from the independent encoder, not from the library
 	for _, t := range vC05Boundary(r) {
 		runOne(vL(vZ(0), vC05ToSx(t)))
-		b, _ := vC05Build(t, false).MarshalBinary()
-		runOne(vL(vZ(1), vB(append(b, 0, 0, 9))))
+		b := vC05KeyedEncode(t)
+		runOne(vL(vZ(1), vB(append(append([]byte{}, b...), 0, 0, 9))))
 		runOne(vL(vZ(1), vB(b[:len(b)-1])))
+		if t.isContainer() {
+			runOne(vL(vZ(2), vL(vL(vZ(3), vI(t.kind), vB(b)), vL(vZ(1), vLs(nil), vB(t.props[0].key), vL(vZ(5))), vL(vZ(2), vLs(nil)))))
+		}
 	}
 	n := k.N(4000, 120000)
 	for i := 0; i < n; i++ {
-		switch x := r.intn(20); {
+		switch x := r.intn(24); {
+		case x >= 20:
+			runOne(vC05GenHist(r))
 		case x < 8:
 			runOne(vL(vZ(0), vC05ToSx(vC05GenTop(r, r.chance(1, 25), false))))
 		case x < 9:
@@ -273,8 +305,7 @@ func TestVerifC05(t *testing.T) {
 		case x < 15:
 			runOne(vL(vZ(1), vB(vC05GenWire(r, !r.chance(1, 6)))))
 		default:
-			lib := vC05Build(vC05GenTop(r, r.chance(1, 40), true), false)
-			b, _ := lib.MarshalBinary()
+			b := vC05KeyedEncode(vC05GenTop(r, r.chance(1, 40), true))
 			if r.chance(1, 5) {
 				runOne(vL(vZ(1), vB(b))) // unmutated literal tree, repeated keys kept
 			} else {
